@@ -229,7 +229,14 @@ J gen_tunnel(uint64_t seed, const J &ov)
 		double fdur = 2 + r.uniform() * 38;
 		J f = J::obj();
 		f.set("ref", "T0"); f.set("t0_us", (long long)1000000); f.set("t1_us", (long long)((1 + fdur) * 1e6));
-		f.set("p_drop", r.chance(0.8) ? r.uniform() * (r.chance(0.2) ? 1.0 : 0.5) : 0.0);
+		bool hs = ov.getb("hs");
+		if (hs) {
+			// extended scope: the same fates while the handshake is running; the oracle applies if the client reaches tunnel mode
+			fdur = 2 + r.uniform() * 25;
+			f.set("ref", "abs"); f.set("t0_us", (long long)150000); f.set("t1_us", (long long)((0.15 + fdur) * 1e6));
+			cfg.set("hs", true);
+		}
+		f.set("p_drop", r.chance(0.8) ? r.uniform() * (r.chance(0.2) ? (hs ? 0.6 : 1.0) : (hs ? 0.3 : 0.5)) : 0.0);
 		f.set("p_dup", r.chance(0.6) ? r.uniform() * 0.4 : 0.0);
 		f.set("p_delay", r.chance(0.6) ? r.uniform() * 0.5 : 0.0);
 		f.set("max_delay_us", (long long)r.range(1000, 5000000));
